@@ -29,7 +29,7 @@ REACH = [
 PLAN = {
     "quick": {"shards": 8, "cases": 42, "timeout_s": 600, "min_evaluations": 9000,
               "min_counters": {"faults_injected": 9000, "exceptions_recorded": 4500, "suite_run_components_calls": 5000}},
-    "thorough": {"shards": 16, "cases": 250, "timeout_s": 3000, "min_evaluations": 100000,
+    "thorough": {"shards": 16, "cases": 450, "timeout_s": 3000, "min_evaluations": 100000,
                  "min_counters": {"faults_injected": 100000, "suite_run_components_calls": 7000}},
 }
 
